@@ -549,7 +549,11 @@ func runLru(rep *vk.Report, r *rand.Rand, idx int, _ bool) (uint64, bool) {
 				e := model[ek.id]
 				seen[ek.id]++
 				if e == nil {
-					viol("entries-phantom", fmt.Sprintf("Entries yields key %d which was never put since the last Reset", ek.id))
+					cl := "entries-phantom"
+					if everReput { // the stale first entry of a re-put key outlives the key (known defect class)
+						cl = "entries-stale-duplicate-after-reput"
+					}
+					viol(cl, fmt.Sprintf("Entries yields key %d which is not cached (never put since the last Reset, or already seen to be evicted)", ek.id))
 					return h, true
 				}
 				if ev != e.v || seen[ek.id] > 1 {
@@ -683,12 +687,12 @@ func runCache(rep *vk.Report, r *rand.Rand, idx int, _ bool) (uint64, bool) {
 		get = c.Get
 	}
 	var last []string
-	prev := -1
+	prev := math.MinInt
 	repeatHits, repeats := 0, 0
 	var keys []int
 	for i := 0; i < ops; i++ {
 		k := r.IntN(domain)
-		if prev >= 0 && r.IntN(4) == 0 {
+		if prev != math.MinInt && r.IntN(4) == 0 {
 			k = prev
 		}
 		if r.IntN(10) == 0 {
